@@ -326,6 +326,23 @@ def classOf (o : Obs) (v : Obj) : String :=
 
 def hasFunc (v : Obj) : Bool := anyObj (fun x => match x with | .func _ => true | _ => false) v
 
+/-- names that loading the file binds AGAIN: a saved binding `h` holds a function named `n ≠ h` (an alias of a named function:
+`func f(x){..}; h=f; f=3`), written `h=func n(..){..}`; evaluating that line defines `n` as well, so a global `n` that holds
+something else now (saved on an earlier line, the file is sorted) comes back as the function -/
+def rebindVictims (o : Obs) : List Bytes :=
+  (o.globals.filter isSaved).filterMap fun b =>
+    match b.val with
+    | .func f =>
+      match f.name with
+      | some n =>
+        let nb := toBytes n
+        if nb != b.name && (match lookupB o.globals nb with
+            | some (.func g) => g.name != some n
+            | some _ => true
+            | none => false) then some nb else none
+      | none => none
+    | _ => none
+
 /-- one class for the case: every failing data binding must be explained by its own value; failing
 functions / calls are explained by a closure, or by a classified data binding of the same case -/
 def caseClass (o : Obs) (vd : Verdict) : String :=
@@ -342,6 +359,8 @@ def caseClass (o : Obs) (vd : Verdict) : String :=
     (lookupB o.globals (toBytes n)).isNone
   if deleted && vd.failing.isEmpty && vd.reasons.all (fun r => r == "second-save" || r == "files") then
     "deleted-preseeded-identifier-comes-back"
+  else if !(rebindVictims o).isEmpty && !vd.failing.isEmpty && vd.failing.all (fun b => (rebindVictims o).contains b.name) then
+    "alias-of-named-function-rebinds-its-name"
   else if dataClasses.any (· == "") then ""
   else match dataClasses with
     | c :: _ => c
